@@ -188,7 +188,7 @@ class Esc:
                     for g in self._resolve_ref(f, c.args[0]):
                         if rt_transparent and id(c) in awaited:
                             # context-sensitive: what X raises inside ``await self._run_task(X)`` surfaces at this very await
-                            scoped = self.enclosing_with(rt, rt_site[0], 'self._process_scope()')
+                            scoped = self.in_process_scope(rt, rt_site[0])
                             self._add(g, f, c, 'process task (awaited here)' + (' [scoped]' if scoped else ''))
                         else:
                             self._add(g, rt, rt_site[0], 'process task')
@@ -248,6 +248,18 @@ class Esc:
         self._stop, self._use_containers = stop, containers
         self._trace(f, node, [(f, node)], {id(f.node)}, out, max_depth, '')
         return out
+
+    def in_process_scope(self, f: FuncInfo, node: ast.AST) -> bool:
+        """``node`` runs with this process on top of the stack: lexically inside ``with self._process_scope():``, or -- the same thing
+        spelled out -- after a push of the process stack in ``f`` on every way to it (the pairing rule of C18 checks the restore)."""
+        if self.enclosing_with(f, node, 'self._process_scope()'):
+            return True
+        from .cfg import cfg_of, no_exc
+        cfgf = cfg_of(f)
+        writes = [m for m in cfgf.nodes if any(isinstance(c, ast.Call) and isinstance(c.func, ast.Attribute) and norm(c.func.value) == 'PROCESS_STACK' and c.func.attr == 'set'
+                                                 for c in (walk_shallow(m.expr()) if m.expr() is not None else []))]
+        here = cfgf.nodes_containing(node)
+        return bool(writes) and bool(here) and all(cfgf.must_pass(cfgf.entry, [h], lambda m: m in writes, edge_ok=no_exc) for h in here)
 
     def enclosing_with(self, f: FuncInfo, node: ast.AST, text: str) -> bool:
         """Is ``node`` lexically inside ``with <text>:`` within ``f``?"""
